@@ -22,19 +22,26 @@ ASSUMPTIONS = ["source never annotates self/cls (DESIGN 3.8)"]
 KIND = {0: "posonly", 1: "poskw", 2: "vararg", 3: "kwonly", 4: "varkw"}
 
 
-def check_module(ctx, funcs, strat, k, sc, pid="C12", c13=None):
+def check_module(ctx, funcs, strat, k, sc, pid="C12", c13=None, via_rows=False):
     # the receiver is annotated in source only under OMIT, where C12 and C13 agree that the stub must not show it
     src = sigsynth.render(funcs, annotate_receiver=strat == EAS.OMIT)
     for f_ in funcs:
         f_.pop('_annotate_receiver', None)
     name, path = sc.new_module(src, stem="mtv_sig")
-    spec = ["SIG", funcs, strat.name, k]
+    spec = ["SIG", funcs, strat.name, k] + (["via-rows"] if via_rows else [])
     try:
         try:
             mod = importlib.import_module(name)
         except Exception as e:
             raise core.HarnessError(f"generated signature module does not import: {e!r}\n{src}")
         traces, live = sigsynth.traces_for(mod, funcs, k)
+        if via_rows and not sigsynth.uses_hostile(funcs):
+            # as the CLI sees them: every trace encoded into a store row and decoded again (function lookup by module + qualname)
+            from monkeytype.encoding import CallTraceRow
+            try:
+                traces = [CallTraceRow.from_trace(t).to_trace() for t in traces]
+            except Exception as e:
+                return ctx.fail(f"{pid}/trace-does-not-survive-the-store:{type(e).__name__}", ["SIG", funcs, strat.name, k, "via-rows"], f"{e!r}\n{src}")
         if not traces:
             ctx.case(spec, False, ["nothing-traced"])
             return
@@ -153,9 +160,9 @@ def shard(ctx):
     sc = tracerun.Scratch("c12-")
     try:
         def factory(ctx):
-            @given(sigsynth.module(), st.sampled_from(list(EAS)), st.sampled_from([0, 3]))
-            def test(funcs, strat, k):
-                check_module(ctx, funcs, strat, k, sc)
+            @given(sigsynth.module(), st.sampled_from(list(EAS)), st.sampled_from([0, 3]), st.sampled_from([False, False, True]))
+            def test(funcs, strat, k, via_rows):
+                check_module(ctx, funcs, strat, k, sc, via_rows=via_rows)
             return test
         core.run_hypothesis(ctx, factory, 500 if q else 4000)
         exhaustive_kinds(ctx, sc)
@@ -170,6 +177,6 @@ def run(ctx):
 def replay(ctx, case):
     sc = tracerun.Scratch("c12-")
     try:
-        check_module(ctx, case[1], EAS[case[2]], case[3], sc)
+        check_module(ctx, case[1], EAS[case[2]], case[3], sc, via_rows=len(case) > 4)
     finally:
         sc.close()
